@@ -104,6 +104,15 @@ func (s *Service) CreatePin(ctx context.Context, ref boson.Address, traverse boo
 
 // DeletePin implements Interface.DeletePin method.
 func (s *Service) DeletePin(ctx context.Context, ref boson.Address) error {
+	// repeating calls are idempotent: a reference that is not pinned has no
+	// pin counters of its own to lower (its chunks may be pinned by other references)
+	has, err := s.HasPin(ref)
+	if err != nil {
+		return err
+	}
+	if !has {
+		return nil
+	}
 	var iterErr error
 	ctx = sctx.SetRootHash(ctx, ref)
 	// iterFn is a unpinning iterator function over the leaves of the root.
